@@ -26,6 +26,9 @@
 
 #include "lang/c/minimessage/MiniMessage.h"    // (both headers carry their own extern "C" guards)
 #include "lang/c/micromessage/MicroMessage.h"
+#include "lang/c/minimessage/MiniMessageGateway.h"
+#include "lang/c/micromessage/MicroMessageGateway.h"
+#include "iogateway/MessageIOGateway.h"
 
 using namespace muscle;
 
@@ -65,7 +68,10 @@ static RefCountableRef tagref(uint64 id)
    g_tags[id] = r;
    return r;
 }
-static bool is_raw_code(uint32 tc) {return (Message::GetElementSize(tc) == 0)&&(tc != B_STRING_TYPE)&&(tc != B_ANY_TYPE);}
+
+static uint32 fixed_width(uint32 tc);
+// the type codes Message::AddData stores as ByteBuffer items (Message::GetElementSize(tc) == 0, not a String)
+static bool is_raw_code(uint32 tc) {return (fixed_width(tc) == 0)&&(tc != B_MESSAGE_TYPE)&&(tc != B_STRING_TYPE)&&(tc != B_POINTER_TYPE)&&(tc != B_ANY_TYPE);}
 
 static bool typed_op(Message & m, char mode, const String & fn, const std::string & t, const std::vector<uint8> & v, uint32 idx, bool oka)
 {
@@ -174,7 +180,7 @@ static bool tree_of_cpp(const Message & m, CMsg & out, std::string & why)
             if (m.FindString(fn, i, &ps).IsError()) {why = "FindString"; return false;}
             ci.bytes.assign((const uint8 *) ps->Cstr(), (const uint8 *) ps->Cstr() + ps->Length());
          }
-         else if (Message::GetElementSize(tc) == 0)
+         else if (fixed_width(tc) == 0)
          {
             FlatCountableRef fc;
             if (m.FindFlat(fn, i, fc).IsError()) {why = "FindFlat"; return false;}
@@ -358,17 +364,18 @@ static bool tree_of_micro(const UMessage * m, CMsg & out, std::string & why)
 }
 
 // builds into a heap buffer of (cap) bytes; returns the flattened bytes, or an empty vector + why on failure
-static bool micro_of_tree(const CMsg & t, std::vector<uint8> & out, std::string & why, uint32 cap)
+static bool micro_of_tree(const CMsg & t, std::vector<uint8> & out, std::string & why, uint32 cap);
+
+// adds the fields of (t) to an initialised, writable UMessage through the UMAdd API
+static bool micro_fill(UMessage & um, const CMsg & t, std::string & why, uint32 cap)
 {
-   std::vector<uint8> buf(cap);
-   UMessage um;
-   if (UMInitializeToEmptyMessage(&um, &buf[0], cap, t.what) != CB_NO_ERROR) {why = "UMInitializeToEmptyMessage"; return false;}
    for (size_t fi=0; fi<t.fields.size(); fi++)
    {
       const CField & f = t.fields[fi];
       const uint32 n = (uint32) f.items.size();
       const uint32 w = fixed_width(f.tc);
       c_status_t r = CB_NO_ERROR;
+      UMessage & umr = um; (void) umr;
       if (f.tc == B_MESSAGE_TYPE)
       {
          std::vector< std::vector<uint8> > subs(n);
@@ -411,9 +418,25 @@ static bool micro_of_tree(const CMsg & t, std::vector<uint8> & out, std::string 
       }
       if (r != CB_NO_ERROR) {why = "UMAdd failed for field " + hex((const uint8 *) f.name.data(), f.name.size()); return false;}
    }
+   return true;
+}
+
+static bool micro_of_tree(const CMsg & t, std::vector<uint8> & out, std::string & why, uint32 cap)
+{
+   std::vector<uint8> buf(cap);
+   UMessage um;
+   if (UMInitializeToEmptyMessage(&um, &buf[0], cap, t.what) != CB_NO_ERROR) {why = "UMInitializeToEmptyMessage"; return false;}
+   if (!micro_fill(um, t, why, cap)) return false;
    const uint32 fs = UMGetFlattenedSize(&um);
    out.assign(UMGetFlattenedBuffer(&um), UMGetFlattenedBuffer(&um) + fs);
    return true;
+}
+
+static int32 collect_send(const uint8 * buf, uint32 numBytes, void * arg)
+{
+   std::vector<uint8> * v = (std::vector<uint8> *) arg;
+   v->insert(v->end(), buf, buf+numBytes);
+   return (int32) numBytes;
 }
 
 // can the C codecs represent this content at all?  (C strings as field names; strings without NUL)
@@ -477,6 +500,20 @@ static void run_case(int k, const std::string & head, const std::string & body)
       std::vector<uint8> B(fs);
       m0.FlattenToBytes(&B[0], fs);
       out << k << " B " << hex(&B[0], fs) << "\n";
+      // the stream frame as MessageIOGateway writes it: 8-byte header (body length, encoding id) + body
+      std::vector<uint8> FR;
+      {
+         MessageIOGateway gw;
+         MessageRef mref = GetMessageFromPool(m0);
+         ByteBufferRef fb = gw.CallFlattenHeaderAndMessage(mref);
+         if (fb() && (fb()->GetNumBytes() >= 8))
+         {
+            FR.assign(fb()->GetBuffer(), fb()->GetBuffer()+fb()->GetNumBytes());
+            out << k << " FR " << hex(&FR[0], 8) << "\n";
+            if ((FR.size() != fs+8)||(memcmp(&FR[8], &B[0], fs) != 0)) orc << k << " ORACLE FAIL C++ gateway: frame body differs from Flatten()\n";
+         }
+         else out << k << " FR error\n";
+      }
       CMsg ref; std::string why, refcct;
       if (!tree_of_cpp(m0, ref, why)) {out << k << " CCT error " << why << "\n";}
       else
@@ -515,6 +552,16 @@ static void run_case(int k, const std::string & head, const std::string & body)
                   CMsg t; std::string s, w2;
                   if (tree_of_cpp(back, t, w2)) {cct(t, s); if (s != refcct) orc << k << " ORACLE FAIL C++ parses mini's bytes to different content\n";}
                }
+               // the C gateway's stream for this Message must be the C++ gateway's, byte for byte
+               MMessageGateway * mg = MGAllocMessageGateway();
+               if (mg && (MGAddOutgoingMessage(mg, mb) == CB_NO_ERROR))
+               {
+                  std::vector<uint8> stream;
+                  for (int guard=0; (guard < 1000) && MGHasBytesToOutput(mg); guard++) if (MGDoOutput(mg, 1u<<30, collect_send, &stream) < 0) break;
+                  if (stream != FR) orc << k << " ORACLE FAIL mini gateway: stream differs from the C++ gateway's: " << hex(stream.empty() ? (const uint8 *)"" : &stream[0], stream.size() < 16 ? stream.size() : 16) << "\n";
+               }
+               else orc << k << " ORACLE FAIL mini gateway: MGAddOutgoingMessage failed\n";
+               if (mg) MGFreeMessageGateway(mg);
                MMFreeMessage(mb);
             }
             else orc << k << " ORACLE FAIL mini: could not build the Message with the MMPut API\n";
@@ -546,6 +593,20 @@ static void run_case(int k, const std::string & head, const std::string & body)
                   }
                }
                else orc << k << " ORACLE FAIL micro: could not build the Message with the UMAdd API: " << w2 << "\n";
+            }
+            // ---------------- micro gateway: build the Message in the gateway's output buffer, collect the stream
+            {
+               std::vector<uint8> inbuf(64), outbuf(fs + 128), stream; std::string w2;
+               UMessageGateway ug;
+               UGGatewayInitialize(&ug, &inbuf[0], (uint32) inbuf.size(), &outbuf[0], (uint32) outbuf.size());
+               UMessage um = UGGetOutgoingMessage(&ug, ref.what);
+               if (UMIsMessageValid(&um) && micro_fill(um, ref, w2, fs + 64))
+               {
+                  UGOutgoingMessagePrepared(&ug, &um);
+                  for (int guard=0; (guard < 1000) && UGHasBytesToOutput(&ug); guard++) if (UGDoOutput(&ug, 1u<<30, collect_send, &stream) < 0) break;
+                  if (stream != FR) orc << k << " ORACLE FAIL micro gateway: stream differs from the C++ gateway's: " << hex(stream.empty() ? (const uint8 *)"" : &stream[0], stream.size() < 16 ? stream.size() : 16) << "\n";
+               }
+               else orc << k << " ORACLE FAIL micro gateway: could not prepare the outgoing Message: " << w2 << "\n";
             }
          }
       }
